@@ -57,8 +57,7 @@ def gen_cases(rng, tier):
 
 
 def _names(l):
-    hdr, rows = vlib.parse_case(l)
-    return hdr[1], ["".join(chr(c) for c in r) for r in rows]
+    return G.grp_names(l)
 
 
 def monitor(l, impl_rows, kv):
